@@ -33,14 +33,27 @@ StaticFails(e) ==
             THEN {Fail("declared_type", 0, "return")} ELSE {}
   IN  run.fails \cup pf \cup rf
 
+\* A text with more than MaxRows term rows that is also more than 8 times larger than its graph (only seen when a
+\* printer defect re-prints shared sub-terms: the text grows exponentially) is judged on the text-level discipline
+\* alone; the driver reports such programs (machinery failure if that discipline holds).
+MaxRows == 500
+\* (no recursion over the statements: such texts have tens of thousands of them)
+DupAssign(prog) ==
+  LET idx == {j \in 1..Len(prog.stmts) : prog.stmts[j].op = "assign"}
+      vars == {prog.stmts[j].var : j \in idx}
+  IN  IF Cardinality(vars) < Cardinality(idx) \/ vars \cap ParamNames(prog) # {}
+      THEN {Fail("single_assignment", 0, "(a name bound more than once)")} ELSE {}
+
 LitFails(e) == {i \in 1..Len(e.prog.rows) : ~LitConvOk("cpp", e.prog.rows[i])}
 
 Init == l = 1
 Next == /\ l <= Len(Trace)
         /\ LET e == Trace[l]
-               sf == StaticFails(e)
-               lf == LitFails(e)
+               big == Len(e.prog.rows) > MaxRows /\ Len(e.prog.rows) > 8 * Len(e.nodes)
+               sf == IF big THEN DupAssign(e.prog) ELSE StaticFails(e)
+               lf == IF big THEN {} ELSE LitFails(e)
            IN  /\ Report(e, {x[1] : x \in sf})
+               /\ IF big THEN Note(e, <<"oversize", Len(e.prog.rows)>>) ELSE TRUE
                /\ IF sf # {} THEN Note(e, <<"static", sf>>) ELSE TRUE
                /\ IF lf # {} THEN Note(e, <<"lit_conv", lf>>) ELSE TRUE
                /\ IF e.warned.undefined_reference > 0 /\ \E x \in sf : x[1] = "def_before_use"
